@@ -53,7 +53,7 @@ theorem valid_unary (env : Nat → Mask) (p : Prog) (m : Mask) (h : eval env (.u
   · cases h
   · rename_i m0 hm0
     simp only [Except.ok.injEq] at h; subst h
-    exact ⟨m0, rfl, rfl, fun j hj => own_get m0 j hj⟩
+    exact ⟨m0, hm0, rfl, fun j hj => own_get m0 j hj⟩
 
 example : run (.un (.leaf 0)) = some ([2, 3], [true, false, true, true, true, false]) := by decide
 
@@ -72,7 +72,7 @@ theorem valid_binary_fields (env : Nat → Mask) (p q : Prog) (m : Mask) (h : ev
       split at h
       · rename_i hab
         simp only [Except.ok.injEq] at h; subst h
-        exact ⟨a, b, rfl, rfl, hab, rfl, fun j hj => own_get (NDA.zipWith and a b) j hj⟩
+        exact ⟨a, b, ha, hb, hab, rfl, fun j hj => own_get (NDA.zipWith and a b) j hj⟩
       · cases h
 
 example : run (.binF (.leaf 0) (.leaf 1)) = some ([2, 3], [true, false, false, true, false, false]) := by decide
@@ -86,7 +86,7 @@ theorem valid_binary_other (env : Nat → Mask) (p : Prog) (m : Mask) (h : eval 
   · cases h
   · rename_i m0 hm0
     simp only [Except.ok.injEq] at h; subst h
-    exact ⟨m0, rfl, rfl, fun j hj => own_get m0 j hj⟩
+    exact ⟨m0, hm0, rfl, fun j hj => own_get m0 j hj⟩
 
 /-- **Both orders.**  `a ∘ b` and `b ∘ a` (e.g. scalar field with vector field and vector field
 with scalar field) carry the same validity. -/
@@ -131,7 +131,7 @@ theorem valid_mapped (env : Nat → Mask) (op : MapOp) (p : Prog) (m : Mask) (h 
     · rename_i hok
       simp only [Except.ok.injEq] at h; subst h
       have hsh : (op.apply m0 false).shape = op.shape m0.shape := apply_shape op m0 false
-      refine ⟨m0, rfl, hok, hsh, fun j hj => ?_⟩
+      refine ⟨m0, hm0, hok, hsh, fun j hj => ?_⟩
       have hj1 : inRange (op.apply m0 false).shape j = true := hj
       have hj2 : inRange (op.shape m0.shape) j = true := by rw [← hsh]; exact hj1
       have hget := apply_get op m0 false hok j hj2
@@ -145,7 +145,7 @@ example : run (.map (.pad .reflect [(1, 0), (0, 2)]) (.leaf 0))
     = some ([3, 5], [true, true, false, true, true, true, false, true, false, true, true, true, false, true, true]) := by
   decide
 example : run (.map (.resample [4, 2]) (.leaf 0)) = some ([4, 2], [true, true, true, true, true, false, true, false]) := by
-  decide
+  decide +kernel
 
 /-- **Exactly as the data.**  The array call of each mapping operation is one function for any
 entry type: applied to the array of (value, validity) pairs it returns, at every cell, the pair
@@ -181,7 +181,7 @@ theorem resample_geometry_free (lo E : Rat) (hE : 0 < E) (n n' j : Nat) :
   simp only [centre_affine]
   exact nearestUpTo_affine (centre01 n) (centre01 n' j) lo E hE (n - 1)
 
-example : nearest 2 3 1 = 1 := by decide  -- tie between both source cells: the larger index
+example : nearest 2 3 1 = 1 := by decide +kernel  -- tie between both source cells: the larger index
 
 /-! ## File round trips -/
 
@@ -210,7 +210,7 @@ theorem setter_shape_bool (n : List Nat) (s : MSpec) (m : Mask) (h : setMask n s
 theorem setter_array (n : List Nat) (a : NDA Rat) (ha : a.shape = n) :
     ∃ m, setMask n (.arr a) = .ok m ∧ m.shape = n ∧
       ∀ j, inRange n j = true → (m.get j = true ↔ a.get j ≠ 0) := by
-  refine ⟨_, by simp only [setMask, if_pos ha], rfl, fun j hj => ?_⟩
+  refine ⟨own ⟨n, fun j => decide (a.get j ≠ 0)⟩, by simp only [setMask, if_pos ha], rfl, fun j hj => ?_⟩
   rw [own_get ⟨n, fun j => decide (a.get j ≠ 0)⟩ j hj]
   simp
 
@@ -222,19 +222,11 @@ theorem setter_broadcast (n : List Nat) (a : NDA Rat) (h1 : a.shape ≠ n) (h2 :
       ∀ j, inRange n j = true →
         inRange a.shape (bcastIdx a.shape (n ++ [1]) (j ++ [0])) = true ∧
         (m.get j = true ↔ a.get (bcastIdx a.shape (n ++ [1]) (j ++ [0])) ≠ 0) := by
-  refine ⟨_, by simp only [setMask, if_neg h1, h2, h3]; simp, rfl, fun j hj => ⟨?_, ?_⟩⟩
-  · apply bcastIdx_inRange _ _ _ h3
-    rw [inRange_iff] at hj ⊢
-    refine ⟨by simp [hj.1], ?_⟩
-    intro b hb
-    rw [List.length_append, List.length_singleton] at hb
-    by_cases c : b < n.length
-    · rw [List.getD_append _ _ _ _ (by omega), List.getD_append _ _ _ _ c]
-      exact hj.2 b c
-    · have : b = n.length := by omega
-      subst this
-      rw [List.getD_append_right _ _ _ _ (by omega), List.getD_append_right _ _ _ _ (by omega)]
-      simp [hj.1]
+  refine ⟨own ⟨n, fun j => decide (a.get (bcastIdx a.shape (n ++ [1]) (j ++ [0])) ≠ 0)⟩, ?_, rfl,
+    fun j hj => ⟨?_, ?_⟩⟩
+  · simp only [setMask]
+    rw [if_neg h1, if_neg (by rw [h2]; simp), if_neg (by rw [h3]; simp)]
+  · exact bcastIdx_inRange _ _ _ h3 (inRange_snoc_one n j hj)
   · rw [own_get ⟨n, fun j => decide (a.get (bcastIdx a.shape (n ++ [1]) (j ++ [0])) ≠ 0)⟩ j hj]
     simp
 
@@ -272,9 +264,9 @@ theorem norm_threshold (r rtol : Rat) (hr : 0 ≤ r) :
 
 example : (match setValid exFld .norm with
     | .ok g => some g.valid.toList
-    | .error _ => none) = some [false, true] := by decide
+    | .error _ => none) = some [false, true] := by decide +kernel
 example : sumSq [6 / 1000000000, 9 / 1000000000] > atol * atol ∧ (9 : Rat) / 1000000000 ≤ atol := by
-  unfold atol sumSq; norm_num
+  simp only [sumSq, atol]; norm_num
 
 /-- **Stored values untouched.**  An accepted assignment changes nothing but the mask: values,
 mesh, component count, labels, mapping and unit are the operand's; the new mask has the mesh
@@ -293,7 +285,7 @@ theorem setValid_func_centres (f g : Fld) (fn : List Rat → Bool) (h : setValid
 
 example : (match setValid exFld (.func fun p => decide (p.getD 0 0 < 1)) with
     | .ok g => some g.valid.toList
-    | .error _ => none) = some [true, false] := by decide
+    | .error _ => none) = some [true, false] := by decide +kernel
 
 /-- assigning validity to a result forgets the result's previous mask: only its shape matters -/
 theorem setter_forgets (env : Nat → Mask) (s : MSpec) (p q : Prog) (a b : Mask) (ha : eval env p = .ok a)
